@@ -43,18 +43,23 @@ CHECKS = {
     ),
     "C06": dict(
         level="exploration",
-        required_probes=['complete_iteration_checked', 'partial_iteration_checked', 'randomised_run', 'randomised_restart_inside_iteration', 'partition_symclass_1', 'balanced_true_checked', 'balanced_false_checked'],
+        required_probes=['complete_iteration_checked', 'partial_iteration_checked', 'randomised_run', 'randomised_restart_inside_iteration', 'partition_symclass_1', 'balanced_true_checked', 'balanced_false_checked', 'processed_forward_projector', 'processed_back_projector', 'processed_objective_function', 'processed_fbp2d'],
         parts=[dict(harness="chk_C06", variant="seq", src="checks/chk_C06.cpp",
                     runs=dict(quick=8000, thorough=400000), wall_cap=dict(quick=150, thorough=2400))],
-        rule=("one case = one generated plan of one of three kinds: (schedule) a real OSMAPOSL or OSSPS reconstruct() loop on a tiny "
+        rule=("one case = one generated plan of one of four kinds: (schedule) a real OSMAPOSL or OSSPS reconstruct() loop on a tiny "
               "geometry with a recording objective function, drawn (num_subsets, num_subiterations, start sub-iteration, start subset, "
               "randomise on/off), simulated clock value and jumps, rand() mode (glibc / adversarial / constant 0 / constant RAND_MAX) and a "
               "foreign consumer of rand()/srand() between sub-iterations; (partition) drawn (views<=96, subsets, segment range, symmetry "
-              "class) checked for disjoint cover; (balanced) reported balance vs counted viewgrams.  Non-trivial: every run; distinct = "
+              "class) checked for disjoint cover; (processed) recording projectors between the library's own loops and the real matrix "
+              "projectors: ForwardProjectorByBin::forward_project and BackProjectorByBin::back_project of a whole data set subset by subset, "
+              "the gradient of the log-likelihood subset by subset (optionally with a maximum segment), FBP2D (parsed parameter text, with and "
+              "without single-slice rebinning): the (segment, view, TOF bin) triples that reach the projectors are disjoint between subsets "
+              "and cover the range exactly once; (balanced) reported balance vs counted viewgrams.  Non-trivial: every run; distinct = "
               "distinct event-log hash (the recorded subset sequence and configuration)."),
         components=dict(real=REAL_COMMON + ["IterativeReconstruction::reconstruct loop, OSMAPOSL/OSSPS update_estimate, real objective function "
                                             "and projectors (recording subclass only observes subset numbers), find_basic_vs_nums_in_subset, "
-                                            "PET and trivial symmetries"],
+                                            "PET and trivial symmetries, ForwardProjectorByBin / BackProjectorByBin whole-data-set loops, "
+                                            "distributable computation of the gradient, FBP2DReconstruction incl. its parser"],
                         stub=STUB_CLOCK + ["rand()/srand(): simulator modes in front of glibc"]),
         assumptions=["partition and balance clauses are sampled (seeded draws), not enumerated", "tiny geometries (<=16 views for schedules)"],
         distinct_by_hash=True,
@@ -139,20 +144,25 @@ CHECKS = {
     ),
     "C17": dict(
         level="fault_enumeration",
-        required_probes=['round_trip_fixed_point', 'damaged_text_accepted_consistent', 'damaged_text_rejected', 'damaged_header_rejected', 'damaged_header_accepted_consistent', 'non_default_object_round_trip', 'keyparser_rules_checked', 'case_whitespace_variant_checked'],
+        required_probes=['round_trip_fixed_point', 'damaged_text_accepted_consistent', 'damaged_text_rejected', 'damaged_header_rejected', 'damaged_header_accepted_consistent', 'non_default_object_round_trip', 'keyparser_rules_checked', 'case_whitespace_variant_checked', 'siemens_sinogram_header_checked', 'spect_header_checked', 'listmode_header_checked', 'multi_header_checked'],
         parts=[dict(harness="chk_C17", variant="seq", src="checks/chk_C17.cpp", extra_rt=["simalloc"],
-                    runs=dict(quick=640, thorough=48000), wall_cap=dict(quick=170, thorough=2400))],
+                    runs=dict(quick=896, thorough=56000), wall_cap=dict(quick=200, thorough=2400))],
         rule=("one case = one text or header and one fault class whose positions are enumerated completely: (registry) the parameter "
               "text a default-constructed object of each registered class of 10 registries prints for itself (object made through the "
               "registry's ask_parameters path in a guarded child process) -> round trip fixed point, case/white-space variants, end of "
               "input after every byte, read error (badbit) mid-stream, one flipped bit at every byte, every line lost / duplicated, every "
               "vectorised index replaced by 0 / negative / huge / next, every free-text key given a value (one at a time and all together: "
               "fixed point and value still printed); (keyparser) generated texts for a parser with scalar, aliased and vectorised keys; "
-              "(interfile) image and projection-data headers written by the library -> truncated at every byte, one flipped bit at every "
-              "byte, every line lost / duplicated, list-valued lines with an entry lost / gained, data file shorter / longer.  "
+              "(interfile) image and projection-data headers written by the library, and in half of the projection-data cases a vendor "
+              "flavour (Siemens sinogram sub-header of the mMR with a small data file, Interfile 3.3 SPECT header) -> truncated at every byte, "
+              "one flipped bit at every byte, every line lost / duplicated, list-valued lines with an entry lost / gained, every vectorised "
+              "index damaged, data file shorter / longer; (interfile_lm) the Siemens list-mode header of a small PETLINK 32-bit file through "
+              "CListModeDataECAT8_32bit, every record fetched and mapped to a bin after an accepted header; (multi) the Multi header of a "
+              "dynamic data set: an accepted header has a name for every data set it announces.  "
               "Non-trivial: every case; distinct = event-log hash."),
         components=dict(real=REAL_COMMON + ["KeyParser, ParsingObject, RegisteredObject registries and every registered class's keymap / "
-                                            "post_processing, InterfileHeader / InterfilePDFSHeader, read_from_file, ProjData::read_from_file"],
+                                            "post_processing, InterfileHeader / InterfilePDFSHeader / InterfilePDFSHeaderSiemens / InterfileListmodeHeaderSiemens / "
+                                            "InterfilePDFSHeaderSPECT / MultipleDataSetHeader, CListModeDataECAT8_32bit, read_from_file, ProjData::read_from_file"],
                         stub=["the input device of the text (string stream / custom streambuf with short reads, EOF and read errors)",
                               "operator new (allocation cap 64 MB)"] + STUB_IO),
         assumptions=["'internally consistent object' is operationalised as: the text it prints for itself re-parses to the same text; for "
